@@ -296,6 +296,22 @@ struct H
         size_t wantl = ra.rfind(rb);
         VF_CHECK((fl ? (size_t)(fl - p) : std::string::npos) == wantl, "C06:String:findLast-str", "findLast('%s') in '%s' wrong", rb.c_str(), ra.c_str());
       }
+      { // character-set searches with the other string as the set, and case-insensitive equality
+        const char* fo = 0; LIB(fo = a.findOneOf((const char*)b));
+        size_t wo = ra.find_first_of(rb);
+        VF_CHECK((fo ? (size_t)(fo - p) : std::string::npos) == wo, "C06:String:findOneOf", "findOneOf('%s') in '%s' wrong", rb.c_str(), ra.c_str());
+        for(size_t st = 0; st <= ra.size(); ++st)
+        {
+          const char* fs = 0; LIB(fs = a.findOneOf((const char*)b, st));
+          size_t ws = ra.find_first_of(rb, st);
+          VF_CHECK((fs ? (size_t)(fs - p) : std::string::npos) == ws, "C06:String:findOneOf-start", "findOneOf('%s', %d) in '%s' wrong", rb.c_str(), (int)st, ra.c_str());
+        }
+        const char* flo = 0; LIB(flo = a.findLastOf((const char*)b));
+        size_t wlo = ra.find_last_of(rb);
+        VF_CHECK((flo ? (size_t)(flo - p) : std::string::npos) == wlo, "C06:String:findLastOf", "findLastOf('%s') in '%s' wrong", rb.c_str(), ra.c_str());
+        bool eic = false; LIB(eic = a.equalsIgnoreCase(b));
+        VF_CHECK(eic == (strcasecmp(ra.c_str(), rb.c_str()) == 0), "C06:String:equalsIgnoreCase", "equalsIgnoreCase('%s','%s') = %d", ra.c_str(), rb.c_str(), (int)eic);
+      }
     }
     { // token / split against a reference splitter
       std::vector<std::string> all; std::string cur;
